@@ -878,4 +878,223 @@ theorem decode_err (ty : IntTy) (c rest : Bytes) (e : Err) (h : primRun (toInt t
   cases hd : decodeInt ty.signed ty.width c with
   | some v => rw [hd] at h; simp at h
   | none => rw [hd] at h; simp at h; exact h.symm
+
+/-! ## 6. BOOLEAN, NULL, and matching an expected value -/
+
+/-- **C14, BOOLEAN.**  `Primitive::to_bool` accepts exactly one content octet; in BER any non-zero
+    octet is `true`, in CER and DER only `0xFF` is; everything else (empty, longer, other octets in
+    CER/DER) is a content error. -/
+theorem bool_eq_spec (m : Mode) (c rest : Bytes) :
+    primRun (toBool m) c rest =
+      match decodeBool m.isBer c with
+      | some b => .ok (b, St rest (some 0))
+      | none => .error .content := by
+  rw [primRun_eq]
+  unfold toBool
+  rw [runG0_bind]
+  match c with
+  | [] => rw [run_takeU8_nil]; rfl
+  | b :: t =>
+    rw [run_takeU8_cons]
+    simp only
+    cases hm : m.isBer with
+    | true =>
+      simp only [Bool.not_true, Bool.false_eq_true, if_false, runG0_pure]
+      rw [run_exhausted_Win]
+      cases t with
+      | nil => simp [decodeBool]
+      | cons x t' => simp [decodeBool]
+    | false =>
+      simp only [Bool.not_false, if_true]
+      by_cases h0 : (b == 0) = true
+      · simp only [h0, if_true, runG0_pure]
+        rw [run_exhausted_Win]
+        cases t with
+        | nil => simp [decodeBool, h0]
+        | cons x t' => simp [decodeBool]
+      · by_cases hff : (b == 0xFF) = true
+        · simp only [h0, hff, Bool.false_eq_true, if_false, if_true, runG0_pure]
+          rw [run_exhausted_Win]
+          cases t with
+          | nil => simp [decodeBool, h0, hff]
+          | cons x t' => simp [decodeBool]
+        · simp only [h0, hff, Bool.false_eq_true, if_false, runG0_contentErr]
+          cases t with
+          | nil => simp [decodeBool, h0, hff]
+          | cons x t' => simp [decodeBool]
+
+/-- **C14, NULL.**  `Primitive::to_null` succeeds exactly on empty content. -/
+theorem null_eq_spec (c rest : Bytes) :
+    primRun toNull c rest = if c = [] then .ok ((), St rest (some 0)) else .error .content := by
+  rw [primRun_eq]
+  unfold toNull
+  rw [runG0_bind, run_remaining]
+  simp only
+  cases c with
+  | nil => simp; rfl
+  | cons x t => simp
+
+/-- `Content::skip_u8_if(expected)` as the model's scripts run it: `to_u8` then compare -/
+def skipU8If (expected : Nat) : Prog Unit := do
+  let v ← toInt .u8
+  if v == (expected : Int) then pure () else contentErr
+
+/-- **C14, expected-value helper.**  `skip_u8_if(expected)` succeeds exactly when the content is a valid
+    `u8` INTEGER whose value equals `expected` (compared as numbers, not as raw octets). -/
+theorem skipU8If_eq_spec (expected : Nat) (c rest : Bytes) :
+    primRun (skipU8If expected) c rest =
+      if decodeInt false 1 c = some (expected : Int) then .ok ((), St rest (some 0))
+      else .error .content := by
+  have h := decode_eq_spec .u8 c rest
+  rw [primRun_eq] at h ⊢
+  unfold skipU8If
+  rw [runG0_bind]
+  have e1 : IntTy.u8.signed = false := rfl
+  have e2 : IntTy.u8.width = 1 := rfl
+  rw [e1, e2] at h
+  cases hr : runG0 (toInt .u8) (Win c rest) with
+  | error e =>
+    rw [hr] at h
+    simp only at h ⊢
+    cases hd : decodeInt false 1 c with
+    | none => rw [hd] at h; simp at h ⊢; exact h
+    | some v => rw [hd] at h; simp at h
+  | ok r =>
+    obtain ⟨v, g⟩ := r
+    rw [hr] at h
+    simp only at h ⊢
+    cases hd : decodeInt false 1 c with
+    | none =>
+      rw [hd] at h
+      cases hx : runG0 limitedExhausted g with
+      | error e => rw [hx] at h; simp at h ⊢; subst h; by_cases hv : v = (expected : Int) <;> simp [hv, hx]
+      | ok r2 => rw [hx] at h; simp at h
+    | some v' =>
+      rw [hd] at h
+      cases hx : runG0 limitedExhausted g with
+      | error e => rw [hx] at h; simp at h
+      | ok r2 =>
+        obtain ⟨u, g'⟩ := r2
+        rw [hx] at h; simp at h
+        obtain ⟨h1, h2⟩ := h
+        subst h1; subst h2
+        by_cases hv : v = (expected : Int)
+        · simp [hv, hx]
+        · simp [hv]
+
+/-! ## 7. encoders -/
+
+theorem toBE_length (w : Nat) : ∀ v, (toBE w v).length = w := by
+  induction w with
+  | zero => intro v; rfl
+  | succ w ih => intro v; simp [toBE, ih]
+
+theorem beValue_toBE (w : Nat) : ∀ v, beValue (toBE w v) = v % 256 ^ w := by
+  induction w with
+  | zero => intro v; simp [toBE, beValue_nil, Nat.mod_one]
+  | succ w ih =>
+    intro v
+    simp only [toBE]
+    rw [beValue_append, ih, beValue_cons, beValue_nil, toNat_ofNat, Nat.pow_succ,
+      Nat.mul_comm (256 ^ w) 256, Nat.mod_mul]
+    simp
+    omega
+
+theorem beValue_toBE_of_lt (w v : Nat) (h : v < 256 ^ w) : beValue (toBE w v) = v := by
+  rw [beValue_toBE, Nat.mod_eq_of_lt h]
+
+theorem dropWhile_replicate (x : UInt8) (l : Bytes) :
+    ∃ k, l = List.replicate k x ++ l.dropWhile (· == x) := by
+  induction l with
+  | nil => exact ⟨0, rfl⟩
+  | cons a t ih =>
+    rw [List.dropWhile_cons]
+    by_cases h : (a == x) = true
+    · obtain ⟨k, hk⟩ := ih
+      refine ⟨k + 1, ?_⟩
+      have : a = x := by simpa using h
+      rw [if_pos h, List.replicate_succ, List.cons_append, ← hk, this]
+    · exact ⟨0, by rw [if_neg h]; rfl⟩
+
+theorem dropWhile_head (x : UInt8) (l : Bytes) (b : UInt8) (r : Bytes)
+    (h : l.dropWhile (· == x) = b :: r) : b ≠ x := by
+  induction l with
+  | nil => simp at h
+  | cons a t ih =>
+    rw [List.dropWhile_cons] at h
+    by_cases hx : (a == x) = true
+    · rw [if_pos hx] at h; exact ih h
+    · rw [if_neg hx] at h
+      simp only [List.cons.injEq] at h
+      rw [← h.1]; simpa using hx
+
+/-- the non-negative arm of `write_encoded`: strip leading zero octets, put one back if the sign bit
+    of the first remaining octet is set -/
+theorem pos_enc (l : Bytes) (b : UInt8) (r : Bytes) (h : l.dropWhile (· == 0) = b :: r) :
+    isMinimalTC ((if 128 ≤ b.toNat then [(0 : UInt8)] else []) ++ b :: r) = true ∧
+    tcValue ((if 128 ≤ b.toNat then [(0 : UInt8)] else []) ++ b :: r) = (beValue l : Int) := by
+  obtain ⟨k, hk⟩ := dropWhile_replicate 0 l
+  have hb0 := dropWhile_head 0 l b r h
+  have hl : beValue l = beValue (b :: r) := by
+    rw [hk, h, beValue_replicate_zero]
+  have hbn : b.toNat ≠ 0 := fun e => hb0 (UInt8.toNat_inj.mp e)
+  by_cases hb : 128 ≤ b.toNat
+  · simp only [hb, if_true, List.singleton_append]
+    constructor
+    · rw [isMinimalTC_cons2]; exact ⟨by omega, by simp⟩
+    · rw [tcValue_of_lt 0 _ (by decide), hl, beValue_cons 0]; simp
+  · simp only [hb, if_false, List.nil_append]
+    constructor
+    · cases r with
+      | nil => rfl
+      | cons b' r' => rw [isMinimalTC_cons2]; exact ⟨by omega, by omega⟩
+    · rw [tcValue_of_lt b r (by omega), hl]
+
+/-- the negative arm: strip leading `0xFF` octets, put one back if the sign bit of the first remaining
+    octet is clear -/
+theorem neg_enc (l : Bytes) (b : UInt8) (r : Bytes) (h : l.dropWhile (· == 0xFF) = b :: r) :
+    isMinimalTC ((if b.toNat < 128 then [(0xFF : UInt8)] else []) ++ b :: r) = true ∧
+    tcValue ((if b.toNat < 128 then [(0xFF : UInt8)] else []) ++ b :: r) =
+      (beValue l : Int) - (256 : Int) ^ l.length := by
+  obtain ⟨k, hk⟩ := dropWhile_replicate 0xFF l
+  have hbf := dropWhile_head 0xFF l b r h
+  have hbn : b.toNat ≠ 255 := fun e => hbf (UInt8.toNat_inj.mp e)
+  rw [h] at hk
+  have h1 := beValue_replicate_ff k (b :: r)
+  have h2 := congrArg (fun n : Nat => (n : Int)) h1
+  simp only [Int.natCast_add, Int.natCast_pow] at h2
+  have c : ((256 : Nat) : Int) = 256 := rfl
+  rw [c, ← hk] at h2
+  have hlen : l.length = k + (b :: r).length := by rw [hk]; simp
+  rw [hlen]
+  by_cases hb : b.toNat < 128
+  · simp only [hb, if_true, List.singleton_append]
+    constructor
+    · rw [isMinimalTC_cons2]; exact ⟨by simp, by omega⟩
+    · rw [tcValue_of_ge 0xFF _ (by decide), beValue_consI, powI_succ]
+      have : ((0xFF : UInt8).toNat : Int) = 255 := rfl
+      rw [this]
+      omega
+  · simp only [hb, if_false, List.nil_append]
+    constructor
+    · cases r with
+      | nil => rfl
+      | cons b' r' => rw [isMinimalTC_cons2]; exact ⟨by omega, by omega⟩
+    · rw [tcValue_of_ge b r (by omega)]
+      simp only [List.length_cons] at h2 ⊢
+      omega
+
+theorem dropWhile_zero_nil (l : Bytes) (h : l.dropWhile (· == 0) = []) : beValue l = 0 := by
+  obtain ⟨k, hk⟩ := dropWhile_replicate 0 l
+  rw [h] at hk
+  rw [hk, beValue_replicate_zero, beValue_nil]
+
+theorem dropWhile_ff_nil (l : Bytes) (h : l.dropWhile (· == 0xFF) = []) : beValue l + 1 = 256 ^ l.length := by
+  obtain ⟨k, hk⟩ := dropWhile_replicate 0xFF l
+  rw [h] at hk
+  have := beValue_replicate_ff k []
+  rw [← hk] at this
+  have hl : l.length = k := by rw [hk]; simp
+  simp [beValue_nil] at this
+  rw [hl]; exact this
 end Bcder.Props.C14
